@@ -206,7 +206,7 @@ impl Scenario for C02 {
         let kind = *rng.pick(typed::KINDS);
         let mut t = typed::instance(rng, kind);
         let mut faults = vec![];
-        let enumerate_truncations = tier == Tier::Thorough && rng.chance(1, 64) && t.len() <= 800;
+        let enumerate_truncations = tier == Tier::Thorough && rng.chance(1, 64) && t.len() <= 320;
         let _ = k;
         if enumerate_truncations {
             faults.push("truncate_all".to_string());
